@@ -42,6 +42,7 @@ type Cfg struct {
 	SkipUntilSec       int64
 	SkipUntil          bool
 	SeqnoCollHigh      bool
+	SeqnoOmitVb        int // vb+1 left out of every GET_ALL_VB_SEQNOS reply (0: none)
 
 	Group            string
 	Membership       string
